@@ -45,3 +45,25 @@ package proxy
 //@   ghost at call ApplyUpdatesOnly#2: check arg0 == s.bpfSvcs && c42FrontDel && c42BackUpd && c42MagUpd && !c42BackDel ; c42FrontUpd = true
 //@   ghost at call ApplyDeletionsOnly#2: check arg0 == s.bpfEps && c42FrontUpd ; c42BackDel = true
 //@   ensures res == nil ==> c42FrontDel && c42BackUpd && c42MagUpd && c42FrontUpd && c42BackDel
+
+//@ -- (3) the map entries carry the numbers they were given: the backend key is (service id, index), the frontend
+//@ --     value carries the service id, the backend count and the local count; a derived frontend (external IP,
+//@ --     load balancer IP, node port) reuses the id and counts of the primary service recorded in this sync.
+//@ func (*Syncer).writeSvcBackend
+//@   property C42
+//@   option safety off
+//@   ghost at call NewNATBackendKey: check arg0 == svcID && arg1 == idx
+//@ func (*Syncer).writeSvc
+//@   property C42
+//@   option safety off
+//@   ghost at call NewNATValueWithFlags: check arg0 == svcID && arg1 == uint32(count) && arg2 == uint32(local)
+//@ ghost c42DId uint32
+//@ ghost c42DCnt int
+//@ ghost c42DLoc int
+//@ func (*Syncer).applyDerived
+//@   property C42
+//@   option safety off
+//@   option callpre off
+//@   ghost at call getSvcKeyExtra: c42DId = svc.id ; c42DCnt = svc.count ; c42DLoc = svc.localCount
+//@   ghost at call writeSvc: check arg2 == c42DId && arg3 == c42DCnt && arg4 == c42DLoc
+//@   ghost at call writeLBSrcRangeSvcNATKeys: check arg2 == c42DId && arg3 == c42DCnt && arg4 == c42DLoc
